@@ -21,6 +21,10 @@ def const7(bound):
 
 # methods never echo their arguments here: a method returning a non-finite float would break the
 # premise "registered methods return JSON-encodable values"
+def rich_value(bound):
+    return {1: 'one', 'total': 2, None: 3, 2.5: (1, (2, None)), 'z': {'b': 1, 3: 'x'}}
+
+
 TABLE = {
     'ok': dict(kind='ret', params=[('a', 0), ('b', 0)], result=const7),
     'add': dict(kind='ret', params=[('a', REQ), ('b', REQ)], result=const7),
@@ -32,6 +36,8 @@ TABLE = {
     'é': dict(kind='ret', params=[('a', 0)], result=const7),
     'perrz': dict(kind='perr', params=[], code=0, message='zero', cls='base'),
     'perre': dict(kind='perr', params=[], code=17, message='', data=None, cls='base'),
+    # a JSON-encodable value that is not in JSON normal form: non-string keys of several types, tuples
+    'rich': dict(kind='ret', params=[], result=rich_value, normalise=True),
 }
 # handled by register_internal_failures(), known to the reference as 'internal'
 INTERNAL = {'vboom': dict(kind='internal', params=[]), 'valboom': dict(kind='internal', params=[]), 'pmax': dict(kind='internal', params=[])}
@@ -53,7 +59,7 @@ def g1(ctx):
 
 JSONRPC = ['__absent__', '2.0', '1.0', 2.0, 2, None, [], {}, ['2.0'], True]
 IDS = ['__absent__', None, 1, 0, -1, 2 ** 64, 'a', '', '1', 1.5, 1.0, True, False, [], {}]
-METHODS = ['__absent__', 'ok', 'add', 'nop', 'perr', 'perr0', 'boom', 'boomt', 'nope', '', 1, None, [], {}, 'vboom', 'valboom', 'pmax', 'perrz', 'perre']
+METHODS = ['__absent__', 'ok', 'add', 'nop', 'perr', 'perr0', 'boom', 'boomt', 'nope', '', 1, None, [], {}, 'vboom', 'valboom', 'pmax', 'perrz', 'perre', 'rich']
 PARAMS = ['__absent__', [], {}, [1], {'a': 1}, [1, 2, 3], {'zz': 1}, None, 1, 'x', True]
 
 
@@ -89,7 +95,7 @@ ARRAY_ALPHABET = [
 ]
 
 
-DISPS = ['sync', 'async', 'async-seq', 'async-wrapped', 'sync-custom', 'async-custom']
+DISPS = ['sync', 'async', 'async-seq', 'async-wrapped', 'sync-custom', 'async-custom', 'sync-mw', 'async-mw']
 
 
 def g2(ctx):
